@@ -270,6 +270,7 @@ func (a *activityManager) publishActivityEvent(event *client.ActivityStreamEvent
 	}
 
 	a.logger.Debugf("Published %s event to activity stream", event.Op)
+	verifGate("activity.published." + a.config.Clustering.ServerID)
 
 	// Update last published index in Raft.
 	op := &proto.RaftLog{
